@@ -13,6 +13,7 @@ import (
 	"strings"
 	"text/template/parse"
 
+	"golang.org/x/tools/go/packages"
 	"golang.org/x/tools/go/ssa"
 
 	"ogenverif/internal/core"
@@ -726,6 +727,12 @@ var mergeReference = map[string][]string{
 		"Nullable", "OneOf", "Pattern", "PatternProperties", "Properties", "Required", "Type", "UniqueItems"},
 }
 
+// classifierExempt: merge keywords the branch classifier need not test, with the reason.
+var classifierExempt = map[string]string{
+	"Default": "the classifier tests DefaultSet, the flag that says a default is present",
+	"Items":   "tuple items are only read by the merge to refuse them (not-implemented error); a branch that states only tuple items has no effect on the generated type today",
+}
+
 // checkMergeSymmetry: allOf merging takes two schemas; whatever field it reads from one it reads from the other.
 func checkMergeSymmetry(c *core.Ctx, prog *core.Prog) {
 	r := c.NewRule("R03.5", "S1", "allOf merging reads the same schema fields from both operands", 2)
@@ -840,6 +847,51 @@ func checkMergeSymmetry(c *core.Ctx, prog *core.Prog) {
 			r.Fail("merge-dropped:"+name, c.Pos(fn.Pos()), fmt.Sprintf("%s no longer reads %v of its operands: that keyword of an allOf branch is ignored (e.g. `required` stated next to a $ref is lost and the member becomes optional)", name, lost))
 		} else if len(mergeReference[name]) > 0 {
 			r.Pass(fmt.Sprintf("%s: reads every reference keyword field (%d) from both operands", name, len(mergeReference[name])))
+		}
+		// classifier closures of the merge (func(*Schema) bool, e.g. containsValidators): a branch is kept or thrown
+		// away by what they look at, so they must look at every keyword the merge itself handles
+		for _, cl := range fn.AnonFuncs {
+			if len(cl.Params) != 1 || cl.Signature.Results().Len() != 1 {
+				continue
+			}
+			if bt, ok := cl.Signature.Results().At(0).Type().Underlying().(*types.Basic); !ok || bt.Kind() != types.Bool {
+				continue
+			}
+			ptr, ok := cl.Params[0].Type().Underlying().(*types.Pointer)
+			if !ok {
+				continue
+			}
+			if n, ok := ptr.Elem().(*types.Named); !ok || n.Obj().Name() != "Schema" {
+				continue
+			}
+			looked := map[string]bool{}
+			for _, b := range cl.Blocks {
+				for _, in := range b.Instrs {
+					if fa, ok := in.(*ssa.FieldAddr); ok && fa.X == ssa.Value(cl.Params[0]) {
+						st := ptr.Elem().Underlying().(*types.Struct)
+						looked[st.Field(fa.Field).Name()] = true
+					}
+				}
+			}
+			if len(looked) < 5 {
+				continue // not a keyword classifier
+			}
+			var blind []string
+			for _, f := range mergeReference[name] {
+				if !looked[f] {
+					if _, ok := classifierExempt[f]; ok {
+						continue
+					}
+					blind = append(blind, f)
+				}
+			}
+			sort.Strings(blind)
+			ck := fmt.Sprintf("merge-classifier:%s%s", name, closureSuffix(cl))
+			if len(blind) == 0 {
+				r.Pass(fmt.Sprintf("%s: the branch classifier looks at %d schema fields, covering every keyword the merge handles", ck, len(looked)))
+			} else {
+				r.Fail(ck, c.Pos(cl.Pos()), fmt.Sprintf("the classifier closure of %s that decides whether an allOf branch carries any constraint does not look at %v, which the merge itself handles: a branch that only states that keyword (e.g. {required: [name]}) is treated as annotation-only and dropped", name, blind))
+			}
 		}
 		if len(only0)+len(only1) == 0 {
 			r.Pass(fmt.Sprintf("%s: %d fields read from each operand", name, len(reads[0])))
@@ -1050,6 +1102,7 @@ func checkValidateAfterDecode(c *core.Ctx) error {
 	}
 	checkRequiredMasks(c, exp)
 	checkParamValidation(c, r, exp)
+	checkGeneratedValidators(c, exp)
 	for _, fx := range exp.Fixtures {
 		pkg := exp.Prog.ByPath[fx.PkgPath]
 		if pkg == nil {
@@ -1441,4 +1494,404 @@ func checkParamValidation(c *core.Ctx, r *core.Rule, exp *core.Expansion) {
 			}
 		}
 	}
+}
+
+// ---------------------------------------------------------------- R03.8 (S2)
+
+// checkGeneratedValidators: consistency of the generated validation code itself.
+//  (a) every regexMap["k"] / ratMap["k"] index uses a key the package-level map literal defines (a missing key yields
+//      a nil matcher, which validate.String treats as "no pattern");
+//  (b) no call of validate.Array.ValidateLength(len(x)) sits behind a branch on len(x): the emptiness of the value must
+//      not decide whether its length is checked;
+//  (c) a struct member outside the required mask whose type is a named slice / pointer type with its own Validate
+//      method is acceptable when nil: that method must not start by refusing the nil receiver;
+//  (d) oneOf inference by unique members looks at every key: the key switch is not skipped once a variant was found
+//      (otherwise a document matching two variants is accepted).
+func checkGeneratedValidators(c *core.Ctx, exp *core.Expansion) {
+	r := c.NewRule("R03.8", "S2", "generated validators: map keys defined, length checks unconditional on length, optional members may be nil, unique-member inference scans every key", 40)
+	for _, fx := range exp.Fixtures {
+		p := exp.Prog.PkgBy[fx.PkgPath]
+		pkg := exp.Prog.ByPath[fx.PkgPath]
+		if p == nil || pkg == nil {
+			continue
+		}
+		// (a) map keys
+		defined := map[string]map[string]bool{"regexMap": {}, "ratMap": {}}
+		declared := map[string]bool{}
+		for _, f := range p.Syntax {
+			for _, d := range f.Decls {
+				gd, ok := d.(*ast.GenDecl)
+				if !ok || gd.Tok != token.VAR {
+					continue
+				}
+				for _, sp := range gd.Specs {
+					vs := sp.(*ast.ValueSpec)
+					for i, id := range vs.Names {
+						if m, ok := defined[id.Name]; ok && i < len(vs.Values) {
+							declared[id.Name] = true
+							if cl, ok := vs.Values[i].(*ast.CompositeLit); ok {
+								for _, e := range cl.Elts {
+									if kv, ok := e.(*ast.KeyValueExpr); ok {
+										if k, ok := strLit(kv.Key); ok {
+											m[k] = true
+										}
+									}
+								}
+							}
+						}
+					}
+				}
+			}
+		}
+		used := 0
+		for _, f := range p.Syntax {
+			ast.Inspect(f, func(n ast.Node) bool {
+				ix, ok := n.(*ast.IndexExpr)
+				if !ok {
+					return true
+				}
+				id, ok := ix.X.(*ast.Ident)
+				if !ok {
+					return true
+				}
+				m, ok := defined[id.Name]
+				if !ok || !declared[id.Name] {
+					return true
+				}
+				k, ok := strLit(ix.Index)
+				if !ok {
+					return true
+				}
+				used++
+				if m[k] {
+					r.Ob(true, "")
+				} else {
+					r.Fail(fmt.Sprintf("map-key:%s:%s[%q]", fx.Name, id.Name, k), c.Pos(ix.Pos()), fmt.Sprintf("%s[%q] is used but the %s literal has no such key: the lookup yields nil and the keyword is silently not enforced (or dereferenced)", id.Name, k, id.Name))
+				}
+				return true
+			})
+		}
+		if used > 0 {
+			r.Pass(fmt.Sprintf("%s: %d regexMap/ratMap lookups use defined keys", fx.Name, used))
+		}
+		// (b), (d): SSA
+		for _, fn := range core.PkgFuncs(exp.Prog.SSA, pkg) {
+			for _, b := range fn.Blocks {
+				for _, in := range b.Instrs {
+					call, ok := in.(*ssa.Call)
+					if !ok {
+						continue
+					}
+					callee := call.Common().StaticCallee()
+					if callee == nil || callee.Name() != "ValidateLength" || len(call.Common().Args) != 2 {
+						continue
+					}
+					lenCall, ok := call.Common().Args[1].(*ssa.Call)
+					if !ok {
+						continue
+					}
+					bi, ok := lenCall.Common().Value.(*ssa.Builtin)
+					if !ok || bi.Name() != "len" {
+						continue
+					}
+					subject := lenCall.Common().Args[0]
+					bad := false
+					for d := b.Idom(); d != nil; d = d.Idom() {
+						iff, ok := d.Instrs[len(d.Instrs)-1].(*ssa.If)
+						if !ok {
+							continue
+						}
+						if condOnLenOf(iff.Cond, subject, 0) {
+							bad = true
+						}
+					}
+					if bad {
+						r.Fail(fmt.Sprintf("length-guarded:%s/%s", fx.Name, fnKey(fn)), c.Pos(call.Pos()), fmt.Sprintf("%s checks the length of a value only on a branch that already depends on that length: e.g. an empty array skips minItems", fn.Name()))
+					} else {
+						r.Ob(true, "")
+					}
+				}
+			}
+		}
+		// (c) optional members of named nil-able types
+		checkOptionalNilable(c, r, exp, fx, p, pkg)
+		// (d)
+		checkInferenceScansAll(c, r, exp, fx, pkg)
+	}
+}
+
+func condOnLenOf(v ssa.Value, subject ssa.Value, depth int) bool {
+	if depth > 4 {
+		return false
+	}
+	switch x := v.(type) {
+	case *ssa.BinOp:
+		return condOnLenOf(x.X, subject, depth+1) || condOnLenOf(x.Y, subject, depth+1)
+	case *ssa.UnOp:
+		return condOnLenOf(x.X, subject, depth+1)
+	case *ssa.Call:
+		if bi, ok := x.Common().Value.(*ssa.Builtin); ok && bi.Name() == "len" {
+			a := x.Common().Args[0]
+			return a == subject || sameLoadOrValue(a, subject)
+		}
+	}
+	return false
+}
+
+func sameLoadOrValue(a, b ssa.Value) bool {
+	la, ok1 := a.(*ssa.UnOp)
+	lb, ok2 := b.(*ssa.UnOp)
+	if ok1 && ok2 && la.Op == token.MUL && lb.Op == token.MUL {
+		if la.X == lb.X {
+			return true
+		}
+		fa, ok1 := la.X.(*ssa.FieldAddr)
+		fb, ok2 := lb.X.(*ssa.FieldAddr)
+		return ok1 && ok2 && fa.Field == fb.Field && fa.X == fb.X
+	}
+	return false
+}
+
+// checkOptionalNilable: members outside the required mask of struct decoders, of a named slice/pointer type whose
+// Validate() begins with `if s == nil { return error }`.
+func checkOptionalNilable(c *core.Ctx, r *core.Rule, exp *core.Expansion, fx *core.Fixture, p *packages.Package, pkg *ssa.Package) {
+	// required masks and name tables (AST), as in R03.7
+	tables := map[string][]string{}
+	masks := map[string][]uint8{}
+	for _, f := range p.Syntax {
+		for _, d := range f.Decls {
+			switch x := d.(type) {
+			case *ast.GenDecl:
+				if x.Tok != token.VAR {
+					continue
+				}
+				for _, sp := range x.Specs {
+					vs := sp.(*ast.ValueSpec)
+					for i, id := range vs.Names {
+						if strings.HasPrefix(id.Name, "jsonFieldsNameOf") && i < len(vs.Values) {
+							if cl, ok := vs.Values[i].(*ast.CompositeLit); ok {
+								var names []string
+								for _, e := range cl.Elts {
+									if kv, ok := e.(*ast.KeyValueExpr); ok {
+										if sv, ok := strLit(kv.Value); ok {
+											names = append(names, sv)
+										}
+									}
+								}
+								tables[strings.TrimPrefix(id.Name, "jsonFieldsNameOf")] = names
+							}
+						}
+					}
+				}
+			case *ast.FuncDecl:
+				if x.Recv == nil || x.Body == nil || x.Name.Name != "Decode" {
+					continue
+				}
+				tn := astRecvName(x.Recv.List[0].Type)
+				ast.Inspect(x.Body, func(n ast.Node) bool {
+					rs, ok := n.(*ast.RangeStmt)
+					if !ok {
+						return true
+					}
+					cl, ok := rs.X.(*ast.CompositeLit)
+					if !ok {
+						return true
+					}
+					if at, ok := cl.Type.(*ast.ArrayType); !ok || fmt.Sprint(at.Elt) != "uint8" {
+						return true
+					}
+					var m []uint8
+					for _, e := range cl.Elts {
+						if bl, ok := e.(*ast.BasicLit); ok {
+							v, _ := strconv.ParseUint(strings.ReplaceAll(bl.Value, "_", ""), 0, 8)
+							m = append(m, uint8(v))
+						}
+					}
+					masks[tn] = m
+					return false
+				})
+			}
+		}
+	}
+	for tn, names := range tables {
+		obj := p.Types.Scope().Lookup(tn)
+		if obj == nil {
+			continue
+		}
+		st, ok := obj.Type().Underlying().(*types.Struct)
+		if !ok {
+			continue
+		}
+		m := masks[tn] // nil when the type has no required members at all
+		for i := 0; i < st.NumFields(); i++ {
+			tag := reflectTag(st.Tag(i), "json")
+			idx := -1
+			for j, nm := range names {
+				if nm == tag {
+					idx = j
+				}
+			}
+			if idx < 0 {
+				continue
+			}
+			required := idx/8 < len(m) && m[idx/8]&(1<<(idx%8)) != 0
+			if required {
+				continue
+			}
+			ft := st.Field(i).Type()
+			named, ok := ft.(*types.Named)
+			if !ok {
+				continue
+			}
+			switch named.Underlying().(type) {
+			case *types.Slice, *types.Pointer:
+			default:
+				continue
+			}
+			val := lookupMethodSafe(exp.Prog, ft, pkg.Pkg, "Validate")
+			if val == nil || val.Blocks == nil {
+				continue
+			}
+			// entry: if s == nil → return non-nil error
+			refuses := false
+			if iff, ok := val.Blocks[0].Instrs[len(val.Blocks[0].Instrs)-1].(*ssa.If); ok {
+				if bo, ok := iff.Cond.(*ssa.BinOp); ok && bo.Op == token.EQL && core.IsNilConst(bo.Y) && (bo.X == ssa.Value(val.Params[0]) || isParamConv(bo.X, val.Params[0], 0)) {
+					nilSide := val.Blocks[0].Succs[0]
+					if ret, ok := nilSide.Instrs[len(nilSide.Instrs)-1].(*ssa.Return); ok && len(ret.Results) == 1 && !core.IsNilConst(ret.Results[0]) {
+						refuses = true
+					}
+				}
+			}
+			key := fmt.Sprintf("%s/%s.%s", fx.Name, tn, st.Field(i).Name())
+			if refuses {
+				r.Fail("optional-refuses-nil:"+key, c.Pos(val.Pos()), fmt.Sprintf("%s.%s is optional (not in the required mask) and absent means nil, but %s.Validate() refuses a nil value: a valid document that leaves the member out is rejected", tn, st.Field(i).Name(), named.Obj().Name()))
+			} else {
+				r.Pass(fmt.Sprintf("%s: optional member of type %s may be nil for its validator", key, named.Obj().Name()))
+			}
+		}
+	}
+}
+
+func isParamConv(v ssa.Value, p *ssa.Parameter, depth int) bool {
+	if depth > 3 {
+		return false
+	}
+	switch x := v.(type) {
+	case *ssa.Parameter:
+		return x == p
+	case *ssa.ChangeType:
+		return isParamConv(x.X, p, depth+1)
+	case *ssa.Convert:
+		return isParamConv(x.X, p, depth+1)
+	}
+	return false
+}
+
+func reflectTag(tag, key string) string {
+	i := strings.Index(tag, key+`:"`)
+	if i < 0 {
+		return ""
+	}
+	rest := tag[i+len(key)+2:]
+	j := strings.IndexByte(rest, '"')
+	if j < 0 {
+		return ""
+	}
+	v := rest[:j]
+	if k := strings.IndexByte(v, ','); k >= 0 {
+		v = v[:k]
+	}
+	return v
+}
+
+// checkInferenceScansAll: in the key callback of a sum Decode that infers the variant from unique members (the
+// callback never reads a member's string value), no comparison of string(key) is dominated by a branch on the
+// captured `found` flag.
+func checkInferenceScansAll(c *core.Ctx, r *core.Rule, exp *core.Expansion, fx *core.Fixture, pkg *ssa.Package) {
+	for n, m := range pkg.Members {
+		tm, ok := m.(*ssa.Type)
+		if !ok {
+			continue
+		}
+		f := structFieldNames(tm.Type())
+		if f == nil || f["Type"] == nil {
+			continue
+		}
+		dec := lookupMethodSafe(exp.Prog, types.NewPointer(tm.Type()), pkg.Pkg, "Decode")
+		if dec == nil || dec.Blocks == nil {
+			continue
+		}
+		for _, g := range core.AllFuncs(dec) {
+			if g == dec {
+				continue
+			}
+			readsValue := false
+			var keyCmps []*ssa.BinOp
+			for _, b := range g.Blocks {
+				for _, in := range b.Instrs {
+					switch x := in.(type) {
+					case *ssa.Call:
+						if callee := x.Common().StaticCallee(); callee != nil && callee.Signature.Recv() != nil && strings.HasSuffix(callee.Signature.Recv().Type().String(), "jx.Decoder") {
+							switch callee.Name() {
+							case "Str", "StrBytes", "StrAppend":
+								readsValue = true
+							}
+						}
+					case *ssa.BinOp:
+						if x.Op == token.EQL {
+							if _, isKey := core.ConstString(x.Y); isKey {
+								if cv, ok := x.X.(*ssa.Convert); ok && isByteSlice(cv.X.Type()) {
+									keyCmps = append(keyCmps, x)
+								}
+							}
+						}
+					}
+				}
+			}
+			if readsValue || len(keyCmps) == 0 {
+				continue // discriminator by value, or not the key callback
+			}
+			bad := false
+			for _, kc := range keyCmps {
+				for d := kc.Block().Idom(); d != nil; d = d.Idom() {
+					iff, ok := d.Instrs[len(d.Instrs)-1].(*ssa.If)
+					if !ok {
+						continue
+					}
+					if dependsOnFreeBool(iff.Cond, 0) {
+						bad = true
+					}
+				}
+			}
+			key := fx.Name + "/" + n
+			if bad {
+				r.Fail("inference-stops-early:"+key, c.Pos(g.Pos()), fmt.Sprintf("%s.Decode stops looking at keys once one variant was found: a document that has the distinguishing members of two variants is accepted as the first", n))
+			} else {
+				r.Pass(fmt.Sprintf("%s: unique-member inference compares every key (%d key tests)", key, len(keyCmps)))
+			}
+		}
+	}
+}
+
+func dependsOnFreeBool(v ssa.Value, depth int) bool {
+	if depth > 4 {
+		return false
+	}
+	switch x := v.(type) {
+	case *ssa.UnOp:
+		if x.Op == token.MUL {
+			if fv, ok := x.X.(*ssa.FreeVar); ok {
+				if p, ok := fv.Type().Underlying().(*types.Pointer); ok {
+					if b, ok := p.Elem().Underlying().(*types.Basic); ok && b.Kind() == types.Bool {
+						return true
+					}
+				}
+			}
+			return false
+		}
+		return dependsOnFreeBool(x.X, depth+1)
+	case *ssa.BinOp:
+		return dependsOnFreeBool(x.X, depth+1) || dependsOnFreeBool(x.Y, depth+1)
+	}
+	return false
 }
